@@ -12,7 +12,7 @@ go build ./... && go build -tags verif ./... || { echo "REPO BUILD FAILS"; exit 
 F=$(go test -vet=off -count=1 ./... 2>&1 | grep -v '^ok\|no test files')
 [ -n "$F" ] && { echo "REPO TESTS FAIL: $F"; exit 1; }
 cd /verif || exit 1
-git merge --no-edit wt-$C >/tmp/merge-$C.log 2>&1
+git checkout -- coq/gen evidence 2>/dev/null; git merge --no-edit wt-$C >/tmp/merge-$C.log 2>&1
 for f in $(git diff --name-only --diff-filter=U); do
   case "$f" in
     known_findings.json) python3 tools/merge_kf.py wt-$C && git add known_findings.json ;;
